@@ -548,16 +548,18 @@ def unit_via_attach():
     return run
 
 
-def unit_via_register():
+def unit_via_register(stale=False):
+    """stale: an earlier connection from the same local address and port never saw its stream and is still listed"""
     def run(ctx):
         ctx.fn('txtorcon.circuit', '_CircuitAttacher._add_real_target')
         import txtorcon.circuit as cm
         ex = ctx.ex
         path = ctx.new_path()
         at = ex.new_inst(path, cm._CircuitAttacher)
-        path.heap[('f', at.oid, '_circuit_targets')] = ex.new_dict(path, [])
-        addr = VOpaque('address', 3)
         host, port = z3.String('local_host'), z3.Int('local_port')
+        old = [(VTuple([VStr(host), VInt(port)]), VTuple([VOpaque('circuit', 14), VOpaque('Deferred', 611)]))] if stale else []
+        path.heap[('f', at.oid, '_circuit_targets')] = ex.new_dict(path, old)
+        addr = VOpaque('address', 3)
         path.heap[('g', 'addr_host')] = VStr(host)
         path.heap[('g', 'addr_port')] = VInt(port)
         circ, d = VOpaque('circuit', 4), VOpaque('Deferred', 610)
@@ -600,7 +602,7 @@ def unit_via_failure():
 
 def units():
     us = [('C09/_maybe_attach@prologue', unit_prologue())]
-    us += [('C09/_CircuitAttacher.attach_stream', unit_via_attach()), ('C09/_CircuitAttacher._add_real_target', unit_via_register()),
+    us += [('C09/_CircuitAttacher.attach_stream', unit_via_attach()), ('C09/_CircuitAttacher._add_real_target', unit_via_register()), ('C09/_CircuitAttacher._add_real_target@port_reused', unit_via_register(True)),
            ('C09/_CircuitAttacher.attach_stream_failure', unit_via_failure())]
     us += [('C09/issue_stream_attach@%s' % a, unit_issue(a)) for a in ANSWERS]
     us += [('C09/set_attacher@%s/%s' % (s, a), unit_set_attacher(s, a)) for s in SLOTS for a in ARGS]
